@@ -200,14 +200,14 @@ def py_objects():
     L = lambda *xs: PyObj("list", list(xs))
     out += [
         ("[]", L(), {"List[]"}),
-        ("[1, 2]", L(i(1), i(2)), {"List[Int64:1,Int64:2]"}),
-        ("[None, 1, None]", L(PyObj("none"), i(1), PyObj("none")), {"List[Null,Int64:1,Null]"}),
+        ("[1, 2]", L(i(1), i(2)), {"List[Int64:1,Int64:2]", "List[Uint64:1,Uint64:2]"}),
+        ("[None, 1, None]", L(PyObj("none"), i(1), PyObj("none")), {"List[Null,Int64:1,Null]", "List[Null,Uint64:1,Null]"}),
         ("[None]", L(PyObj("none")), {"List[Null]"}),
         ("[-1, 1]", L(i(-1), i(1)), {"List[Int64:-1,Int64:1]"}),
         ("[1, i64::MAX+1]", L(i(1), i(I64_MAX + 1)), {"Err", "List[Int64:1,Uint64:%d]" % (I64_MAX + 1), "List[Uint64:1,Uint64:%d]" % (I64_MAX + 1)}),
         ("[1, 2.5]", L(i(1), PyObj("float", "finite")), {"Err", "List[Int64:1,Float64:finite]"}),
         ("['a', 'b']", L(PyObj("str", "a"), PyObj("str", "b")), {"List[String:a,String:b]"}),
-        ("[[1], [2, None]]", L(L(i(1)), L(i(2), PyObj("none"))), {"List[List[Int64:1],List[Int64:2,Null]]"}),
+        ("[[1], [2, None]]", L(L(i(1)), L(i(2), PyObj("none"))), {"List[List[Int64:1],List[Int64:2,Null]]", "List[List[Uint64:1],List[Uint64:2,Null]]"}),
         ("[1.5, nan]", L(PyObj("float", "finite"), PyObj("float", "nan")), {"Err"}),
         ("[1, object]", L(i(1), PyObj("other", "x")), {"Err"}),
         ("[1, 'a']", L(i(1), PyObj("str", "a")), {"Err", "List[Int64:1,String:a]"}),
